@@ -491,6 +491,11 @@ CHECKS["C15"]["rule"] += (" Plus two parsers side by side: A is given a caller s
                           "dropped, the caller overwrites its slice; B, fed in between (sizes up to 100 kB), must still show "
                           "exactly the bytes it was fed.")
 
+CHECKS["C12"]["quick"]["tests"].append({"test": "TestC12Bracket", "checks": 8, "subchecks": 1})
+CHECKS["C12"]["thorough"]["tests"].append({"test": "TestC12Bracket", "checks": 60, "subchecks": 1, "once": True})
+CHECKS["C12"]["rule"] += (" Plus a suffix array of millions of entries with a handful of positions passed: 'W lo' 'W hi' followed by "
+                          "70 000 - 1 200 000 records 'W x y' that all sort between the two; the first 64 positions of the first block "
+                          "are judged by brute force.")
 CHECKS["C11"]["quick"]["tests"].append({"test": "TestC11Far", "checks": 30, "subchecks": 1})
 CHECKS["C11"]["thorough"]["tests"].append({"test": "TestC11Far", "checks": 40, "subchecks": 1})
 CHECKS["C11"]["rule"] += (" Plus far distances: OSAP over more than a MiB of bytes that are uniform over 256 values (expanded from one "
